@@ -208,21 +208,14 @@ impl LocalTypeEnv {
 impl Typer { #[verifier::external_body] pub fn hir_table_ref(&self) -> (r: &HirTable) { unimplemented!() } }           // &self.hir_table
 // a closure's type: one parameter type per parameter, in order — the written annotation where there is one — and the body's type as the result
 pub open spec fn closure_rule_ok(params: Seq<HirClosureParam>, body: ExprId, r: Expr) -> bool {
-    r matches Expr::EClosure { params: ps, body: b, ty, captures: _ } && inferred(body, *b) && ps@.len() == params.len()
+    r matches Expr::EClosure { params: ps, body: b, ty, captures: _ } && elaborated(body, *b) && ps@.len() == params.len()
     && (ty matches Ty::TFunc { params: pt, ret_ty } && pt@.len() == params.len() && *ret_ty == expr_ty(*b)
         && forall|i: int| 0 <= i < params.len() ==> (#[trigger] pt@[i]) == ps@[i].ty && (params[i].ty matches Some(h) ==> annot_ty(h, pt@[i])))
 }
-// a closure checked against an expected function type with as many parameters: an unannotated parameter takes the expected type, an annotated one its
-// annotation (equated with the expected type); the body is CHECKED against the expected result.  Any other expected type: the closure is inferred.
-pub open spec fn check_closure_ok(params: Seq<HirClosureParam>, body: ExprId, expected: Ty, r: Expr, rec: Set<Constraint>) -> bool {
-    if expected matches Ty::TFunc { params: ep, ret_ty: er } && ep@.len() == params.len() {
-        r matches Expr::EClosure { params: ps, body: b, ty, captures: _ } && checked_as(body, *expected->TFunc_ret_ty, *b) && ps@.len() == params.len()
-        && (ty matches Ty::TFunc { params: pt, ret_ty } && pt@.len() == params.len() && *ret_ty == expr_ty(*b)
-            && forall|i: int| 0 <= i < params.len() ==> (#[trigger] pt@[i]) == ps@[i].ty && (match params[i].ty {
-                   Some(h) => annot_ty(h, pt@[i]) && rec.contains(Constraint::TypeEqual(pt@[i], expected->TFunc_params@[i])),
-                   None => pt@[i] == expected->TFunc_params@[i] }))
-    } else { closure_rule_ok(params, body, r) }
-}
+// a closure in CHECKING mode: the same statement.  How much of the expected function type is pushed into the closure (expected parameter types for unannotated
+// parameters, the body checked against the expected result) decides how much is accepted, not soundness: check_expr's tail (U-DYNVIS) equates the closure's
+// type — built here from its parameters' types and its body's type — with the expected type whatever this function does with it.
+pub open spec fn check_closure_ok(params: Seq<HirClosureParam>, body: ExprId, expected: Ty, r: Expr, rec: Set<Constraint>) -> bool { closure_rule_ok(params, body, r) }
 
 // ---- blocks (U-INFERCTRL infer_block_expr(s) / check_block_expr(s)) ----
 impl Prim { #[verifier::external_body] pub fn unit() -> (r: Prim) { unimplemented!() } }
@@ -230,11 +223,10 @@ impl Prim { #[verifier::external_body] pub fn unit() -> (r: Prim) { unimplemente
 #[verifier::external_body] pub fn last_ty(v: &Vec<Expr>) -> (r: Ty) ensures v@.len() > 0 ==> r == expr_ty(v@[v@.len() - 1]), v@.len() == 0 ==> r is TUnit { unimplemented!() }
 #[verifier::external_body] pub fn first_ty(v: &Vec<Expr>) -> (r: Ty) ensures v@.len() > 0 ==> r == expr_ty(v@[0]), v@.len() == 0 ==> r is TUnit { unimplemented!() }        // the same with `.first()`
 pub open spec fn unit_value(r: Expr) -> bool { r matches Expr::EPrim { value: _, ty } && ty is TUnit }
-// a non-empty block: every expression elaborated, in order; the block has the type of its LAST expression (in checking mode the last one is checked against the expected type)
+// a non-empty block: every expression elaborated (in whichever mode: check_expr's tail equates the block's type with the expected type anyway), in order; the block has the type of its LAST expression
 pub open spec fn block_rule_ok(exprs: Seq<ExprId>, r: Expr, expected: Option<Ty>) -> bool {
     r matches Expr::EBlock { exprs: a, ty } && a@.len() == exprs.len() && exprs.len() > 0 && ty == expr_ty(a@[a@.len() - 1])
-    && (forall|i: int| 0 <= i < exprs.len() - 1 ==> inferred(#[trigger] exprs[i], a@[i]))
-    && (match expected { Some(t) => checked_as(exprs[exprs.len() - 1], t, a@[a@.len() - 1]), None => inferred(exprs[exprs.len() - 1], a@[a@.len() - 1]) })
+    && (forall|i: int| 0 <= i < exprs.len() ==> elaborated(#[trigger] exprs[i], a@[i]))
 }
 pub open spec fn block_ok(exprs: Seq<ExprId>, r: Expr, expected: Option<Ty>) -> bool { if exprs.len() == 0 { unit_value(r) } else { block_rule_ok(exprs, r, expected) } }
 
@@ -254,4 +246,22 @@ impl Diagnostic { #[verifier::external_body] pub fn new(stage: Stage, severity: 
 pub open spec fn proj_rule_ok(tuple: ExprId, index: usize, r: Expr, d0: nat, d1: nat) -> bool {
     r matches Expr::EProj { tuple: t, index: i, ty } && inferred(tuple, *t) && i == index && d1 >= d0
     && (match expr_ty(*t) { Ty::TTuple { typs } => if index < typs@.len() { ty == typs@[index as int] } else { d1 > d0 }, _ => d1 > d0 })
+}
+
+// ---- let (U-INFERCTRL infer_let_expr / check_let_expr) ----
+impl Typer {
+    // check_pat for the pattern of a `let`: by design it binds in the scope of the enclosing block (no scope of its own — that is the match arms' rule)
+    #[verifier::external_body]
+    pub fn check_pat_here(&mut self, genv: &PackageTypeEnv, local_env: &mut LocalTypeEnv, diagnostics: &mut Diagnostics, pat: PatId, ty: &Ty) -> (r: Pat)
+        ensures pat_checked(pat, *ty, r), old(self).recorded().subset_of(final(self).recorded()),
+    { unimplemented!() }
+}
+// `let p: T = e` — e is CHECKED against the annotation's type and p is checked against that type; `let p = e` — e is inferred and p is checked against e's type; a let has type unit
+pub open spec fn let_rule_ok(pat: PatId, annotation: Option<HirTypeExpr>, value: ExprId, r: Expr, rec: Set<Constraint>) -> bool {
+    r matches Expr::ELet { pat: p, value: v, ty } && ty is TUnit
+    && (match annotation {
+            // (checked against it, or inferred and then equated with it: which of the two is the code's business)
+            Some(h) => exists|t: Ty| #[trigger] annot_ty(h, t) && pat_checked(pat, t, p) && (checked_as(value, t, *v) || (inferred(value, *v) && rec.contains(Constraint::TypeEqual(expr_ty(*v), t)))),
+            None => inferred(value, *v) && pat_checked(pat, expr_ty(*v), p),
+        })
 }
